@@ -327,6 +327,11 @@ func checkC09(c *Ctx) {
 		progs = append(progs, seen[k])
 		names = append(names, k)
 	}
+	for i, nme := range names {
+		if i%40 == 0 {
+			c.Sample(map[string]interface{}{"concurrent_program": nme})
+		}
+	}
 	c.Set("operation_pairs", int64(npairs))
 	c.Set("programs_run", int64(len(progs)))
 	reps := c.Pick(36, 300)
